@@ -918,6 +918,16 @@ impl World {
                 let id = (self.bgs.len() - 1) as u32;
                 self.schedule(self.now + life_ns, Ev::BgEnd(id));
             }
+            Op::CloseStdin => {
+                if let StdinSrc::Pipe(p) = std::mem::replace(&mut self.procs[pi].stdin, StdinSrc::Closed) {
+                    let pp = &mut self.pipes[p];
+                    pp.readers = pp.readers.saturating_sub(1);
+                    if pp.blocked_reader == Some(pid) {
+                        pp.blocked_reader = None;
+                    }
+                }
+                self.procs[pi].linebuf.clear();
+            }
             Op::Touch { rel } => {
                 let base = self.procs[pi]
                     .env
